@@ -353,3 +353,33 @@ def u_builder_chunk(ip):
     c.oblige("chunk_passed_to_engine", bool(ok) and count_stores(ip, key, "jit_duration") == 1)
     c.oblige("epochs_passed_to_engine", bool(ok_ep) and count_stores(ip, key, "epochs") == 1)
     c.notes.append(f"slice lines of build(): {lines}")
+
+
+@unit("C16.builder_epochs", "C16", [f"{BUILDER}::EngineBuilder.set_duration", f"{BUILDER}::EngineBuilder.set_epochs", f"{BUILDER}::EngineBuilder.epochs.fget"],
+      summaries=[f"{WARMUP}::stan_epochs (C16.stan_epochs)", f"{EPOCH}::EpochManager.__init__ (C16.init)"])
+def u_builder_epochs(ip):
+    """set_duration hands its arguments to stan_epochs under the right names (warmup, posterior, term duration, posterior and warmup
+    thinning) and stores the resulting schedule in an EpochManager (so invalid schedules are rejected); set_epochs does the same
+    for a user schedule; `epochs` reads that manager's schedule."""
+    c = ip.ctx
+    got = {}
+
+    def stan(ip_, args, kwargs):
+        got["args"], got["kwargs"] = list(args), dict(kwargs)
+        return "SCHEDULE"
+
+    def mgr_init(ip_, args, kwargs):
+        args[0].f["_configs"] = ("managed", args[1])
+
+    ip.summaries[f"{WARMUP}::stan_epochs"] = stan
+    ip.summaries[f"{EPOCH}::EpochManager.__init__"] = mgr_init
+    b = new_obj(ip, f"{BUILDER}::EngineBuilder")
+    W, P, T, tp, tw = [c.fresh(n, Int) for n in ("W", "P", "T", "tp", "tw")]
+    ip.call(method(ip, b, "set_duration"), [W, P], {"term_duration": T, "thinning_posterior": tp, "thinning_warmup": tw})
+    a, k = got["args"], got["kwargs"]
+    named = {**dict(zip(("warmup_duration", "posterior_duration", "init_duration", "term_duration", "base_duration", "thinning_posterior", "thinning_warmup"), a)), **k}
+    c.oblige("arguments_forwarded_under_their_names", named.get("warmup_duration") is W and named.get("posterior_duration") is P and named.get("term_duration") is T
+             and named.get("thinning_posterior") is tp and named.get("thinning_warmup") is tw and "init_duration" not in named and "base_duration" not in named)
+    c.oblige("schedule_goes_through_epoch_manager", b.f["_epochs"].f["_configs"] == ("managed", "SCHEDULE"))
+    ip.call(method(ip, b, "set_epochs"), ["USER"], {})
+    c.oblige("user_schedule_goes_through_epoch_manager", b.f["_epochs"].f["_configs"] == ("managed", "USER"))
